@@ -275,6 +275,7 @@ func installEnvStubs(e *Engine) {
 	S := e.stubs
 	e.handles = map[int]*fileHandle{}
 	installLibStubs(e)
+	installHTTPStubs(e)
 	tg := "(*github.com/glowlabs-org/threadgroup.ThreadGroup)."
 	S[tg+"Launch"] = func(e *Engine, st *State, c *callInfo, a []Value) Value {
 		if fv, ok := a[1].(*FuncV); ok {
@@ -649,6 +650,71 @@ func installLibStubs(e *Engine) {
 		path := mustConcreteStr(a[0], "verifFileAbsent path")
 		e.putFile(st, path, fileState{exists: False(), ln: BVu(0, 64), elems: &ArrayV{T: types.Typ[types.Uint8]}})
 		return nil
+	}
+}
+
+// installHTTPStubs: encoding/json and net/http contracts used by the handlers.
+func installHTTPStubs(e *Engine) {
+	S := e.stubs
+	S["encoding/json.NewDecoder"] = func(e *Engine, st *State, c *callInfo, a []Value) Value {
+		return singlePtr(e.alloc(st, &StructV{F: []Value{a[0]}}))
+	}
+	S["(*encoding/json.Decoder).Decode"] = func(e *Engine, st *State, c *callInfo, a []Value) Value {
+		// the request body decodes to the value registered by the harness, or fails
+		src, ok := st.ghost["user:json.body"]
+		fails := FreshBool("json.decode.fails")
+		fails.Input = true
+		e.noteAssumption("encoding/json: Decode either fails (target untouched) or stores an arbitrary value of the target type chosen by the harness; JSON text semantics are a contract, not encoded")
+		if !ok {
+			return e.newError(st, "json: decode error")
+		}
+		dst := a[1].(*IfaceV).A[0].V.(*PtrV)
+		val := e.load(st, src.(*PtrV), c.site)
+		old := e.load(st, dst, c.site)
+		e.store(st, dst, mergeV(fails, old, val), c.site)
+		return errIf(fails, e.newError(st, "json: decode error").(*IfaceV))
+	}
+	S["encoding/json.NewEncoder"] = func(e *Engine, st *State, c *callInfo, a []Value) Value {
+		return singlePtr(e.alloc(st, &StructV{F: []Value{a[0]}}))
+	}
+	S["(*encoding/json.Encoder).Encode"] = func(e *Engine, st *State, c *callInfo, a []Value) Value {
+		st.ghost["user:json.encoded"] = a[1].(*IfaceV).A[0].V
+		cnt := e.ghostTerm(st, "json.encodes", func() *Term { return BVu(0, 64) })
+		st.ghost["json.encodes"] = Add(cnt, BVu(1, 64))
+		e.noteAssumption("encoding/json: Encode hands the value to the client unchanged and succeeds (the rendering itself is outside the model)")
+		return nilIface()
+	}
+	S["encoding/json.Marshal"] = func(e *Engine, st *State, c *callInfo, a []Value) Value {
+		es := make([]Value, 8)
+		for i := range es {
+			es[i] = Fresh("json.bytes", 8)
+		}
+		l := e.alloc(st, &ArrayV{E: es, T: types.Typ[types.Uint8]})
+		return &TupleV{E: []Value{singleSlice(l, BVu(0, 64), BVu(8, 64), BVu(8, 64)), nilIface()}}
+	}
+	S["(*net/url.URL).Query"] = func(e *Engine, st *State, c *callInfo, a []Value) Value {
+		if v, ok := st.ghost["user:query"]; ok {
+			return v
+		}
+		return zeroValue(types.NewMap(types.Typ[types.String], types.NewSlice(types.Typ[types.String])))
+	}
+	S["encoding/hex.DecodeString"] = func(e *Engine, st *State, c *callInfo, a []Value) Value {
+		if v, ok := st.ghost["user:hex"]; ok {
+			fails := FreshBool("hex.fails")
+			fails.Input = true
+			return &TupleV{E: []Value{v, errIf(fails, e.newError(st, "hex: invalid").(*IfaceV))}}
+		}
+		return &TupleV{E: []Value{zeroValue(types.NewSlice(types.Typ[types.Uint8])), e.newError(st, "hex: invalid")}}
+	}
+	S["verif:verifJSONEncoded"] = func(e *Engine, st *State, c *callInfo, a []Value) Value {
+		// copies the last encoded value into *dst; reports whether there was one
+		v, ok := st.ghost["user:json.encoded"]
+		if !ok {
+			return False()
+		}
+		dst := a[0].(*IfaceV).A[0].V.(*PtrV)
+		e.store(st, dst, v, c.site)
+		return True()
 	}
 }
 
